@@ -109,7 +109,15 @@ def build_filter(f):
             kw[prefix + 'bounding_box'] = BoundingBox(min_latitude=b[0] + 0.001, max_latitude=b[1] - 0.001, min_longitude=b[2] + 0.001, max_longitude=b[3] - 0.001)
         else:
             kw[prefix + s['kind']] = one(['A' + v if s['kind'] == 'airport' else v for v in s['vals']])
-    return Filter(**kw), bool(kw)
+    has = bool(kw)
+    # Query.tla TypeForms: an unrestricted service / aircraft type condition may be left out or written as an empty
+    # list - it means the same.  One form per filter, chosen deterministically from its content.
+    if sum(map(ord, json.dumps(f, sort_keys=True))) % 2 == 1:
+        if not f['svc']:
+            kw['service_type'] = []
+        if not f['acft']:
+            kw['aircraft_type'] = []
+    return Filter(**kw), has
 
 
 def run_case(case):
